@@ -13,19 +13,27 @@ TECHNIQUE = ("Coq proof over a per-synapse model of the event-time bookkeeping (
              "history) and of the seven delay-adjusted / kernel trainers' forward passes (algebra over the reals, NaN modelled "
              "with option); the half kernels are re-translated from functional/stdkernels.py on every run; the hand-written "
              "trainer model is tied to the code by differential correspondence on real layers with scripted spike trains")
-LEVEL_TEXT = ("Machine-checked proof (Coq, reals) that, for every spike history, batch, receptive field, delay sequence and "
-              "hyperparameter choice, the model's t_delta equals t_post_last - t_pre_last - d computed from the true most recent "
-              "spike times (NaN, hence no change, until both sides have spiked), that each trainer's (pos, neg) parts net to the "
-              "documented rule with the causal branch chosen iff t_delta >= 0, that kernel STDP with the generated "
-              "exp_stdp_post/pre_kernel gives the same parts as the dedicated delay-adjusted rules, and that with zero delays the "
-              "adjusted rules coincide with unadjusted KernelSTDP.")
-LEVEL_NOTE = ("Trusted: Coq kernel and the standard real-number axioms; the translator for the two half kernels (also cross-checked "
-              "numerically here); the hand-written model C18/DelayAdj.v of EventReducer.fold (initial='nan') and of the trainers' "
-              "forward passes, validated by correspondence only (generator coverage: LinearDense/Direct/Lateral/Conv2D cells, "
-              "batch<=3, <=14 steps); torch broadcasting/nansum/einops reshapes and the monitor/hook plumbing are modelled by "
-              "their meaning. NOT proved: floating-point rounding; KernelSTDP's delayed=True view-based branch (covered by "
-              "neither proof nor correspondence here; C08/C07 territory); batch reductions other than sum/mean are covered by "
-              "correspondence only (the agreement theorems need an odd reduction that maps zeros to zero).")
+LEVEL_TEXT = ("Machine-checked proof (Coq, reals) that, for every spike history, batch, receptive field, per-step delay sequence and "
+              "hyperparameter choice: the monitors hold the time since the true most recent spike and at every step of every run "
+              "each trainer's forward is applied to t_delta = t_post_last - t_pre_last - d(t) (NaN, hence zero parts, until both "
+              "sides have spiked) [cell_step_true_times, monitor_true_times, no_change_before_both_spiked]; the (pos, neg) parts "
+              "of DelayAdjustedSTDP/STDPD/MSTDP/MSTDPD (scalar and per-sample reward) net to the documented two-branch rule with "
+              "the causal branch taken iff t_delta >= 0 [rule_formula, run_rule_formula, branch_iff_tdelta_nonneg]; kernel STDP "
+              "with the generated exp_stdp_post/pre_kernel accumulates the same parts as the dedicated rules for sum/mean "
+              "reduction [kernel_eq_delayadjusted(_delays)] - refuted for amax [kernel_eq_amax_refuted] -; with zero delays the "
+              "adjusted rules are unadjusted KernelSTDP over whole runs [zero_delay_reduces_to_kernel, "
+              "zero_delay_da_stdp_is_kernel_stdp]; both parts are non-negative for every trainer and kernel [parts_nonneg].")
+LEVEL_NOTE = ("Trusted: Coq kernel and the standard real-number axioms (incl. classic via library lemmas); the translator for the "
+              "two half kernels (also cross-checked numerically here); the hand-written model C18/DelayAdj.v of EventReducer.fold "
+              "(initial='nan') and of the trainers' forward passes, validated by correspondence only (generator coverage: "
+              "LinearDense/Direct/Lateral/Conv2D cells, batch<=3, <=14 steps, delays set directly or by connection.update()); "
+              "torch broadcasting/nansum/einops reshapes, the monitor/hook plumbing and the Updater are modelled by their meaning "
+              "(update() is checked by the oracle only). NOT proved: floating-point rounding; KernelSTDP's delayed=True view-based "
+              "branch (neither proof nor correspondence here); KernelSTDP on a delayed connection is run through the "
+              "correspondence with the harness supplying connection.synspike as a time shift (C06's statement), not proved here; "
+              "amax reduction: correspondence, non-negativity and no-change theorems only (the agreement theorem is false for it); "
+              "per-sample reward with a reduction other than sum: correspondence only.")
+EXPLANATION = LEVEL_TEXT
 HEADER = ("From Coq Require Import List ZArith Bool PrimFloat.\n"
           "From Inferno Require Import Base.Num Base.NumF Gen.Stdkernels C18.DelayAdj C18.DelayAdjExec.\n"
           "Import ListNotations.\nOpen Scope float_scope.\n")
@@ -322,6 +330,9 @@ def compare_cell(case, g, impl, model):
 
 
 # --------------------------------------------------------------------------- direct oracle
+STATS = Counter()
+
+
 def red_apply(red, xs):
     if red == "sum":
         return math.fsum(xs)
@@ -360,6 +371,9 @@ def expected_parts(case, g, k, last_pre, last_post, delays, st):
                 if jp is None or jq is None:
                     continue      # no change while either side has not spiked yet
                 td = (jq - jp) * dt - d        # t_post_last - t_pre_last - d
+                STATS["tdelta_evaluated"] += 1
+                STATS["tdelta_exactly_zero"] += int(td == 0)
+                STATS["tdelta_negative"] += int(td < 0)
                 if td >= 0:
                     c += math.exp(-td / tc_c)
                 else:
@@ -477,7 +491,15 @@ def attach_seen(case, impl):
         st["delay_seen"] = None
 
 
+def ensure_exec():
+    """the executable model must be (re)built against the freshly translated kernels even when a proof file no longer
+    compiles (no obligation file depends on C18/DelayAdjExec.vo)"""
+    with F.BuildLock():
+        F.make(["C18/DelayAdjExec.vo"], timeout=600)
+
+
 def evaluate(cases, pairs):
+    ensure_exec()
     impl = F.run_impl(IMPL, {"cases": cases})
     geos, obss, terms = [], [], []
     for c, ri in zip(cases, impl):
@@ -529,6 +551,39 @@ def evaluate(cases, pairs):
     return impl, model, mismatches, oracle_fail
 
 
+def amax_observation(rng, n):
+    """NOT part of the verdict (the property does not quantify over batch reductions; theorem kernel_eq_amax_refuted):
+    with batch_reduction=torch.amax the kernel trainers' depressing part is the batch minimum where the dedicated rules
+    take the maximum.  Counted on the implementation and recorded in the evidence only."""
+    cases, pairs = [], []
+    for _ in range(n):
+        what, a, b = gen_pair(rng)
+        if not what.startswith("kernel_eq"):
+            continue
+        a["B"] = b["B"] = max(2, a["B"])
+        g = geometry(a)
+        a["steps"] = gen_steps(rng, a, g, rng.randint(3, 10))
+        for st in a["steps"]:
+            st["update"] = False
+        b["steps"] = copy.deepcopy(a["steps"])
+        a["trainer"]["red"] = b["trainer"]["red"] = "amax"
+        pairs.append((what, len(cases), len(cases) + 1))
+        cases += [a, b]
+    if not cases:
+        return {"pairs": 0, "disagreeing": 0}
+    impl = F.run_impl(IMPL, {"cases": cases})
+    bad, first = 0, None
+    for what, ia, ib in pairs:
+        d = oracle_pair(what, impl[ia], impl[ib])
+        if d is not None:
+            bad += 1
+            if first is None:
+                first = {"detail": d, "a": strip(cases[ia]), "b": strip(cases[ib])}
+    return {"pairs": len(pairs), "disagreeing": bad, "first": first,
+            "note": "finding candidate, see theorem kernel_eq_amax_refuted; signature would be "
+                    "{'what': 'pair:kernel_eq', 'red': 'amax'}"}
+
+
 def strip(c):
     c = copy.deepcopy(c)
     if c.get("kind") == "pair":
@@ -569,6 +624,7 @@ def exhaustive_cases():
 def run(ctx):
     rng = random.Random(ctx["seed"])
     quick = ctx["tier"] == "quick"
+    STATS.clear()
     n_cell, n_pair, n_ker = (170, 45, 40) if quick else (2500, 600, 300)
     cases = []
     pairs = []
@@ -593,6 +649,7 @@ def run(ctx):
         m["case"] = strip(m["case"])
     for f in oracle_fail:
         f["case"] = strip(f["case"])
+    amax_obs = amax_observation(rng, 8 if quick else 60)
     cells = [c for c in cases if c["kind"] == "cell"]
     nontrivial = set()
     silent_steps = active_steps = boundary = 0
@@ -626,6 +683,7 @@ def run(ctx):
         "reduction_distribution": dict(Counter(c["trainer"]["red"] for c in cells)),
         "pairs": dict(Counter(w for w, _, _ in pairs)),
         "steps_with_a_silent_unit": silent_steps, "steps_all_units_spiked": active_steps,
+        "observation_amax_pairs": amax_obs, "tdelta_statistics": dict(STATS),
         "samples": [strip(c) for c in cells[:2]],
         "mismatches": mismatches, "oracle_failures": oracle_fail,
         "traces_validated_against_impl": len(cases) - len(mismatches),
